@@ -29,6 +29,10 @@ def main() -> int:
             if not msg.startswith("fix:"):
                 print("commit is not a fix:", e["commit"], msg)
                 rc = 1
+    t = subprocess.run(["python3-vt", os.path.join(VERIF, "tools", "test_sym.py")], cwd=VERIF, capture_output=True, text=True)
+    if t.returncode != 0:
+        print("test_sym failed:\n" + t.stdout[-2000:])
+        rc = 1
     outs = {}
     for seed in ("0", "1", "12345"):
         for pid in claimed:
